@@ -309,7 +309,7 @@ type scriptSpec struct {
 	Args    []string  `json:"args"`         // value ids
 	Depth   int       `json:"depth"`
 	Variant int       `json:"variant"` // 0 direct, 1 wrapped in try
-	Control bool      `json:"control,omitempty"`
+	Control string    `json:"control,omitempty"` // "" | "all": cyclic and deep values replaced | "deep": deep values replaced
 }
 
 // render builds the script text. In a control variant every cyclic / deep value is replaced by a
@@ -325,7 +325,7 @@ func (s *scriptSpec) render() (src, class, inputClass string) {
 		}
 		if v.Class != "" && v.Class != "plain" {
 			classes[v.Class] = true
-			if s.Control {
+			if s.Control == "all" || s.Control == "deep" && v.Class == "deep" {
 				return v.Benign
 			}
 		}
@@ -386,7 +386,7 @@ func (s *scriptSpec) render() (src, class, inputClass string) {
 	default:
 		inputClass = strings.Join(cl, "+") + "-data"
 	}
-	if s.Control {
+	if s.Control != "" {
 		inputClass = "control"
 	}
 	return
@@ -426,8 +426,8 @@ var opTemplates = []string{
 }
 
 // controlOf returns the control variant of a script (nasty values replaced by benign ones).
-func controlOf(s scriptSpec) scriptSpec {
-	s.Control = true
+func controlOf(s scriptSpec, kind string) scriptSpec {
+	s.Control = kind
 	return s
 }
 
